@@ -746,7 +746,7 @@ def c15(ctx):
 def c16(ctx):
     ctx.level = "exploration"
     ctx.rule = ("Jws.tla: 5 key types x coordinate shapes (normal, x with a leading zero byte, y with a leading zero byte) "
-                "x 9 modifications. The harness finds a key of the shape by rejection sampling, converts it with "
+                "x 10 modifications (the tenth: x plus the field prime where that fits the width). The harness finds a key of the shape by rejection sampling, converts it with "
                 "pubkey.GetPublicKeyJWK and compares kty / crv / coordinates with its own fixed-width encoding, the "
                 "commitment and reveal value under both algorithms with the reference terms over that encoding, reads "
                 "the JWK back (same key), verifies a signature under it; each modification (off-curve point, x / y one "
